@@ -25,11 +25,17 @@ them, the three evaluation paths ``chi2_molecules``,
   some_tiebreak         on inputs with ties ("nearest" ambiguous) the value equals the reference
                         value for at least one admissible choice of nearest atoms.
 
+Over-demand scan: no clause depends on private attribute names, on which of the three methods is
+selected, on the exception type, on argmin tie-breaking or on the summation algorithm.
+
 Reading of the statement for duplicated restraints: the restraint *list* is a multiset of
 pairs -- "the sum of squared distances over restrained pairs" runs over the list entries, so a
 pair listed twice (or a fixed atom listed twice with two partners) contributes each time; a fixed
 atom is "restrained" if it occurs as first component at least once, a mobile atom if it occurs as
-second component at least once (so k counts *distinct* restrained mobile atoms).
+second component at least once (so k counts *distinct* restrained mobile atoms).  A fixed atom
+listed twice with two different partners is two distinct pairs under any reading; only a list that
+repeats an identical pair is ambiguous ("pairs" as a set): a value equal to the set reading there is
+reported as undecided, any other mismatch as refuted.
 """
 from __future__ import annotations
 
@@ -144,7 +150,10 @@ def oracle(fixed, mobile, restraints, scale2=None, guards=False):
     else:
         path = "with_restraints"
     return {
-        "value": base * _pow(1.1, k), "k": k, "path": path, "ties": ties, "choices": choices,
+        "value": base * _pow(1.1, k), "k": k, "path": path,
+        # the other reading of a list that repeats an IDENTICAL pair ("restrained pairs" as a set): only used to
+        # downgrade a mismatch on such lists to undecided, never as the expected value
+        "value_pairs_as_set": (s_restr_dedup + s_near) * _pow(1.1, k), "identical_pairs_repeated": len(set(pairs)) != len(pairs), "ties": ties, "choices": choices,
         "base": base, "s_restr": s_restr, "s_near": s_near, "n_pairs": len(pairs),
         "restrained_mobile": restrained_mobile, "restrained_fixed": restrained_fixed,
         "nearest": nearest,
@@ -174,6 +183,11 @@ def tiebreak_values(orc, nm, cap=4096):
     ks = set()
     for combo in itertools.product(*orc["choices"]):
         ks.add(nm - len(orc["restrained_mobile"] | set(combo)))
+    # reading "every atom attaining the minimum is a nearest atom" (and any union in between)
+    every = set(orc["restrained_mobile"])
+    for c in orc["choices"]:
+        every |= set(c)
+    ks |= set(range(nm - len(every), max(ks) + 1))
     return sorted(orc["base"] * _pow(1.1, k) for k in ks)
 
 
@@ -269,7 +283,7 @@ def check_case(case, clauses=None):
     o_e = oracle(F, Me, restr, L2)
     o_c = oracle(F, Mc, restr, L2)
     n_terms = nf + o_e["n_pairs"] + 1
-    floor = 1e-14 * L2 * n_terms
+    floor = 1e-12 * L2 * n_terms      # absolute floor: tolerates e.g. the expanded form |a|^2+|b|^2-2a.b of the distances
     fails = []
     facts = {"path": o_e["path"], "k": o_e["k"], "ties": o_e["ties"], "expected": o_e["value"],
              "ties_construct": o_c["ties"], "skipped_tiebreak_cap": False, "selected": None,
@@ -278,8 +292,8 @@ def check_case(case, clauses=None):
     def want(c):
         return clauses is None or c in clauses
 
-    def fail(clause, observed, expected, detail=""):
-        fails.append({"clause": clause, "observed": observed, "expected": expected, "detail": detail})
+    def fail(clause, observed, expected, detail="", ambiguous=False):
+        fails.append({"clause": clause, "observed": observed, "expected": expected, "detail": detail, "ambiguous": ambiguous})
 
     (vals, sel), err = _try_real(F, Mc, [Me, Mc, Me], restr, fmt)
     facts["selected"] = sel
@@ -306,7 +320,9 @@ def check_case(case, clauses=None):
     # ---- no ties on the evaluation configuration from here on
     if want("equals_reference"):
         if not _close(obs, o_e["value"], floor):
-            fail("equals_reference", obs, o_e["value"], "first call, evaluation configuration != construction configuration")
+            amb = o_e["identical_pairs_repeated"] and _close(obs, o_e["value_pairs_as_set"], floor)
+            fail("equals_reference", obs, o_e["value"], "first call, evaluation configuration != construction configuration"
+                 + ("; the list repeats an identical pair and the value equals the reading 'restrained pairs as a set'" if amb else ""), amb)
         elif not _close(obs_again, o_e["value"], floor):
             fail("equals_reference", obs_again, o_e["value"], "third call (same evaluation configuration again, after a call on another one)")
         elif not o_c["ties"] and not _close(obs_c, o_c["value"], floor):
@@ -319,7 +335,7 @@ def check_case(case, clauses=None):
             if err:
                 fail("only_eval_config", err, obs, name)
                 break
-            if not _close(v2[0], obs, 1e-16 * L2):
+            if not _close(v2[0], obs, floor):
                 fail("only_eval_config", v2[0], obs, name)
                 break
     if want("rigid_motion") and case.get("quat") is not None:
@@ -330,7 +346,7 @@ def check_case(case, clauses=None):
         (v2, _), err = _try_real(F2, Mc2, [Me2], restr, fmt)
         if err:
             fail("rigid_motion", err, obs, "moved sets")
-        elif not _close(v2[0], obs, 1e-18 * L2m * n_terms):
+        elif not _close(v2[0], obs, 1e-12 * L2m * n_terms):
             fail("rigid_motion", v2[0], obs, "value after common rotation+translation vs before")
     if want("relabelling") and case.get("perm_fixed") is not None:
         pf, pm = case["perm_fixed"], case["perm_mobile"]
@@ -363,7 +379,7 @@ def check_paths_agree(geom, subsets):
         r = [(i, near[i]) for i in A]
         (v, _), err = _try_real(F, Mc, [Me], r)
         n += 1
-        if err or not _close(v[0], v0[0], 1e-14 * L2 * (len(F) + 1)):
+        if err or not _close(v[0], v0[0], 1e-12 * L2 * (len(F) + 1)):
             return {"clause": "paths_agree", "observed": err or v[0], "expected": v0[0], "restraints": r,
                     "detail": "restraining fixed atoms to their own nearest mobile atom changed the value (expected = real value without restraints)"}, n
     return None, n
@@ -573,7 +589,11 @@ def run_scope(tag, rng, shapes, geoms_per_shape, small_p, n_len2, n_random, max_
                 s["sample"] = {"fixed": case["fixed"], "mobile_construct": case["mobile_construct"],
                                "mobile_eval": case["mobile_eval"], "restraints": case["restraints"], "fmt": case["fmt"],
                                "observed": facts["observed"], "expected": facts["expected"], "k": facts["k"]}
-            if clause in failed:
+            if clause in failed and failed[clause].get("ambiguous"):
+                s["ambiguous"] = s.get("ambiguous", 0) + 1
+                if s.get("ambiguous_first") is None:
+                    s["ambiguous_first"] = (case["restraints"], failed[clause]["observed"], failed[clause]["expected"])
+            elif clause in failed:
                 s["bad"] += 1
                 if s["first"] is None or _size(case) < _size(s["first"][0]):
                     s["first"] = (case, failed[clause], facts)
@@ -595,6 +615,14 @@ def run_scope(tag, rng, shapes, geoms_per_shape, small_p, n_len2, n_random, max_
             out.append(ob(oid, "discharged", kind="bounded", engine="smallscope", backend="runtime-contract", secs=secs,
                           evaluations=s["n"], nontrivial=s["nontrivial"], reason=cover,
                           sample=dict(s["sample"] or {}, skipped_ties=s["skipped_ties"])))
+    for (fn, clause), s in sorted(st.items()):
+        if s.get("ambiguous"):
+            r, o_, e_ = s["ambiguous_first"]
+            out.append(ob(f"{PROP}/{fn}/ensures.{clause}.identical_pair_repeated/{tag}", "undecided", kind="bounded", engine="smallscope",
+                          backend="runtime-contract", secs=secs, evaluations=s["ambiguous"],
+                          reason=(f"{s['ambiguous']} lists that repeat an identical pair give the value of the reading 'restrained pairs as a set' "
+                                  f"instead of 'every list entry contributes' (the statement does not settle it): e.g. restraints {r}: observed {o_!r}, "
+                                  f"list reading {e_!r}")))
     oid = f"{PROP}/{CLS}.__init__/ensures.paths_agree/{tag}"
     if pa["first"] is not None:
         g, f, _ = pa["first"]
@@ -679,7 +707,7 @@ def task_guards(tier, seed):
         if err:
             continue
         obs = vals[0]
-        floor = 1e-14 * L2 * (len(F) + o["n_pairs"] + 1)
+        floor = 1e-12 * L2 * (len(F) + o["n_pairs"] + 1)
         if not _close(obs, o["value"], floor):
             continue       # a genuine failure: reported by the contract tasks, not here
         n_cases += 1
@@ -754,10 +782,13 @@ def bounded_info():
         "stubs": [],
         "assumptions": [
             "restraint list read as a multiset of (fixed, mobile) index pairs: every list entry contributes to the restrained sum; "
-            "an atom is restrained if it occurs at least once; k counts distinct mobile atoms",
+            "an atom is restrained if it occurs at least once; k counts distinct mobile atoms.  Only for lists that repeat an IDENTICAL pair the "
+            "statement also admits 'restrained pairs as a set': a value equal to that reading is reported undecided, not refuted",
+            "on tie inputs any reading of 'nearest' is admitted (one of the tied atoms, all of them, or anything in between)",
             "inputs where two mobile atoms are equally near (within 1e-7 relative) to an unrestrained fixed atom are skipped for the exact "
             "clauses ('nearest' ambiguous) and checked against the set of values of all admissible tie-breaks instead",
-            "float64 comparison at 1e-9 relative (plus an absolute floor of 1e-14..1e-18 x squared coordinate magnitude)",
+            "float64 comparison at 1e-9 relative plus an absolute floor of 1e-12 x squared coordinate magnitude x number of terms",
+            "which private method the constructor selects is recorded (cex.selected_method) but never decides a verdict",
             "restraint indices are valid non-negative indices; the evaluation configuration has the same atom count as the construction one",
         ],
         "explanation": ("Bounded run-time contract checks of the real Chi2Calculator against the reference definition of the statement written as "
@@ -782,7 +813,7 @@ def replay(prop, cex):
         (v0, _), e0 = _try_real(F, Mc, [Me], None)
         (v1, _), e1 = _try_real(F, Mc, [Me], r)
         L2 = _scale2(F, Mc, Me)
-        bad = bool(e0 or e1) or not _close(v1[0], v0[0], 1e-14 * L2 * (len(F) + 1))
+        bad = bool(e0 or e1) or not _close(v1[0], v0[0], 1e-12 * L2 * (len(F) + 1))
         return {"reproduced": bad, "observed": e1 or (v1[0] if v1 else None), "expected": e0 or (v0[0] if v0 else None),
                 "reference_value": oracle(F, Me, r, L2)["value"], "inputs": cex,
                 "note": "expected = real value without restraints; each restrained fixed atom is tied to its own nearest mobile atom"}
